@@ -42,7 +42,10 @@ let sx_ev : ev -> Sx.t = function
 let eval (input : Sx.t) (obs : Sx.t) : Sx.t list * bool * bool * string =
   let head = bool_of (List.hd (Sx.args (Sx.field "head" input))) in
   let plain = (match Sx.field_opt "plain" input with Some p -> bool_of (List.hd (Sx.args p)) | None -> false) in
-  let ops = List.map (op_of (not plain)) (Sx.args (Sx.field "ops" input)) in
+  let expand x = (match Sx.tag x, Sx.args x with
+    | "cwh", [c1; c2] -> [Sx.L [Sx.A "wh"; c1]; Sx.L [Sx.A "wh"; c2]]   (* two callers at once answer like one after the other *)
+    | _ -> [x]) in
+  let ops = List.map (op_of (not plain)) (List.concat_map expand (Sx.args (Sx.field "ops" input))) in
   let outs = List.map (fun o -> List.map ev_of (Sx.list o)) (Sx.args (Sx.field "outs" obs)) in
   let m = run head ops in
   let sx_m = Sx.L (Sx.A "outs" :: List.map (fun es -> Sx.L (List.map sx_ev es)) m) in
